@@ -376,5 +376,5 @@ func (g *Group) fixed(v *big.Int) []byte {
 	return append(make([]byte, g.Len-len(b)), b...)
 }
 
-func (g *Group) Public(x *big.Int) []byte { return g.fixed(ModExp(big.NewInt(2), x, g.P)) }
+func (g *Group) Public(x *big.Int) []byte       { return g.fixed(ModExp(big.NewInt(2), x, g.P)) }
 func (g *Group) Shared(x, peer *big.Int) []byte { return g.fixed(ModExp(peer, x, g.P)) }
